@@ -1036,28 +1036,33 @@ class PolarsModel(data_algebra.data_model.DataModel):
         how = op.jointype.lower()
         if how == "full":
             how = "outer"
-        if how != "right":
-            coalesce_columns = set(op.sources[0].columns_produced()).intersection(
+        # every column both sides have (keys included) is coalesced below: polars is asked to keep the
+        # key columns of both sides (coalesce=False), a clashing second-side column gets the suffix
+        coalesce_columns = set(op.sources[0].columns_produced()).intersection(
+            op.sources[1].columns_produced()
+        )
+        on_a = list(op.on_a)
+        on_b = list(op.on_b)
+        if len(on_a) <= 0:
+            # no keys (CROSS, or another join type without keys): join on a constant scratch column
+            scratch_col = "_da_join_scratch_key"
+            names_in_use = set(op.sources[0].columns_produced()).union(
                 op.sources[1].columns_produced()
-            ) - set(op.on_a)
-            orphan_keys = [c for c in op.on_b if c not in set(op.on_a)]
-            if how == "outer":
-                # a full join keeps the key columns of both sides (a clashing right one under the suffix):
-                # every shared column, keys included, is coalesced, and no right key needs a scratch copy
-                coalesce_columns = set(op.sources[0].columns_produced()).intersection(
-                    op.sources[1].columns_produced()
-                )
-                orphan_keys = []
-            input_right = inputs[1]
-            if len(orphan_keys) > 0:
-                input_right = input_right.with_columns(
-                    [pl.col(c).alias(f"{c}_da_join_tmp_key") for c in orphan_keys]
-                )
+            )
+            while scratch_col in names_in_use:
+                scratch_col = scratch_col + "_"
+            inputs = [d.with_columns(pl.lit(1).alias(scratch_col)) for d in inputs]
+            on_a = [scratch_col]
+            on_b = [scratch_col]
+            if how == "cross":
+                how = "inner"
+        if how != "right":
             res = inputs[0].join(
-                input_right,
-                left_on=op.on_a,
-                right_on=op.on_b,
+                inputs[1],
+                left_on=on_a,
+                right_on=on_b,
                 how=how,
+                coalesce=False,
                 suffix="_da_right_tmp",
             )
             if len(coalesce_columns) > 0:
@@ -1070,24 +1075,14 @@ class PolarsModel(data_algebra.data_model.DataModel):
                         for c in coalesce_columns
                     ]
                 )
-            if len(orphan_keys) > 0:
-                res = res.rename({f"{c}_da_join_tmp_key": c for c in orphan_keys})
         else:
             # simulate right join with left join
-            coalesce_columns = set(op.sources[0].columns_produced()).intersection(
-                op.sources[1].columns_produced()
-            ) - set(op.on_b)
-            orphan_keys = [c for c in op.on_a if c not in set(op.on_b)]
-            input_right = inputs[0]
-            if len(orphan_keys) > 0:
-                input_right = input_right.with_columns(
-                    [pl.col(c).alias(f"{c}_da_join_tmp_key") for c in orphan_keys]
-                )
             res = inputs[1].join(
-                input_right,
-                left_on=op.on_b,
-                right_on=op.on_a,
+                inputs[0],
+                left_on=on_b,
+                right_on=on_a,
                 how="left",
+                coalesce=False,
                 suffix="_da_left_tmp",
             )
             if len(coalesce_columns) > 0:
@@ -1100,8 +1095,6 @@ class PolarsModel(data_algebra.data_model.DataModel):
                         for c in coalesce_columns
                     ]
                 )
-            if len(orphan_keys) > 0:
-                res = res.rename({f"{c}_da_join_tmp_key": c for c in orphan_keys})
         res = res.select(op.columns_produced())
         return res
 
